@@ -26,6 +26,9 @@ pub enum Op {
     Send { s: u16 },
     /// same through the Sink interface (poll_ready, start_send, poll_flush)
     SinkSend { s: u16 },
+    /// `Sink::poll_close` on sender `s`: finishing one sender handle as a sink does not close the
+    /// channel (that is what `Sender::close` is for) and leaves every sender usable
+    SinkClose { s: u16 },
     CloneSender { s: u16 },
     DropSender { s: u16 },
     Close { s: u16 },
@@ -203,6 +206,17 @@ fn check_inner(c: &Case) -> CaseResult {
                     senders.push(vcore::Sut::new(r.sender()));
                 }
             }
+            Op::SinkClose { s } => {
+                if senders.is_empty() {
+                    continue;
+                }
+                let i = vcore::pick(s, senders.len());
+                let (_cw, w) = count_waker();
+                let mut cx = Context::from_waker(&w);
+                let r = Pin::new(&mut *senders[i]).poll_close(&mut cx);
+                vensure!(matches!(r, Poll::Ready(Ok(()))), "C16/sink", "step {}: Sink::poll_close not Ready(Ok)", step);
+                obs.label("sink-close");
+            }
             Op::DropReceiver => {
                 if rx.take().is_some() {
                     queue.clear();
@@ -232,7 +246,8 @@ fn check_inner(c: &Case) -> CaseResult {
     Ok(obs)
 }
 
-const ALPHA: [Op; 10] = [
+const ALPHA: [Op; 11] = [
+    Op::SinkClose { s: 0 },
     Op::PollSame { w: 0 },
     Op::Send { s: 0 },
     Op::Send { s: 65535 },
@@ -249,6 +264,7 @@ fn op() -> impl Strategy<Value = Op> {
     prop_oneof![
         5 => any::<u16>().prop_map(|s| Op::Send { s }),
         1 => any::<u16>().prop_map(|s| Op::SinkSend { s }),
+        1 => any::<u16>().prop_map(|s| Op::SinkClose { s }),
         2 => any::<u16>().prop_map(|s| Op::CloneSender { s }),
         3 => any::<u16>().prop_map(|s| Op::DropSender { s }),
         2 => any::<u16>().prop_map(|s| Op::Close { s }),
@@ -278,7 +294,7 @@ pub fn case_from_bytes(data: &[u8]) -> Case {
                 let s = ((*b >> 4) as u16) << 12;
                 match b % 16 {
                     0..=3 => Op::Send { s },
-                    4 => Op::SinkSend { s },
+                    4 => if s & 0x1000 != 0 { Op::SinkClose { s } } else { Op::SinkSend { s } },
                     5 | 6 => Op::CloneSender { s },
                     7 | 8 => Op::DropSender { s },
                     9 => Op::Close { s },
@@ -293,7 +309,7 @@ pub fn case_from_bytes(data: &[u8]) -> Case {
     }
 }
 
-const RULE: &str = "operation sequences over {send, Sink send, clone sender, drop a sender, close, poll receiver with a fresh counting waker or one of two long-lived wakers (also through recv()), sender-from-receiver, drop receiver} with <=3 senders, applied to local_channel::mpsc and to a reference queue model; send must fail exactly when the receiver is gone or the channel closed (returning the item); poll_next must equal the model; a Pending poll's waker must be woken by the next successful send, the last sender's drop and close (extra wake-ups allowed); a final drain must return the buffered items in order; non-trivial = a Pending poll followed by send/last-drop/close, or close with a live sender followed by a poll";
+const RULE: &str = "operation sequences over {send, Sink send, Sink close (a no-op for the channel), clone sender, drop a sender, close, poll receiver with a fresh counting waker or one of two long-lived wakers (also through recv()), sender-from-receiver, drop receiver} with <=3 senders, applied to local_channel::mpsc and to a reference queue model; send must fail exactly when the receiver is gone or the channel closed (returning the item); poll_next must equal the model; a Pending poll's waker must be woken by the next successful send, the last sender's drop and close (extra wake-ups allowed); a final drain must return the buffered items in order; non-trivial = a Pending poll followed by send/last-drop/close, or close with a live sender followed by a poll";
 
 pub fn run(ctx: &Ctx) {
     ctx.assume("single-threaded use (the channel is !Send); wake-ups observed through counting wakers, one fresh waker per poll or one of two long-lived wakers");
